@@ -42,6 +42,12 @@ func exportedEntries(r *engine.Run, rule, rel string, owners map[string]bool, ex
 
 // checkGuards verifies the guarded-by discipline of table over everything
 // reachable from entries.
+// inferredGuards: guard inferred by checkGuards for a field the table does not
+// list ("" = none); pendingTable: such fields noticed by tableComplete (which
+// runs first), resolved at the end of checkGuards.
+var inferredGuards = map[string]string{}
+var pendingTable [][2]string
+
 func checkGuards(r *engine.Run, rule string, entries []*ssa.Function, owners map[string]bool, table guardTable) *engine.LockWorld {
 	g := r.P.RepoCG()
 	w := engine.NewLockWorld(g, entries)
@@ -74,6 +80,14 @@ func checkGuards(r *engine.Run, rule string, entries []*ssa.Function, owners map
 		}
 	}
 	atomicSeen := map[string]bool{}
+	type unkAccess struct {
+		f         *ssa.Function
+		a         engine.Access
+		construct string
+		pos       string
+		held      engine.LockSet
+	}
+	unknown := map[string][]unkAccess{}
 	for _, f := range fns {
 		r.Touch(f)
 		for _, a := range engine.FieldAccesses(f, owners) {
@@ -89,7 +103,9 @@ func checkGuards(r *engine.Run, rule string, entries []*ssa.Function, owners map
 				continue // constructor context: the object is not shared yet
 			}
 			if !known {
-				note(construct, pos, false, "field has no entry in the guard table (new shared state?)")
+				// a field the table does not know: its guard is inferred from all of its
+				// accesses (see inferGuards below)
+				unknown[key] = append(unknown[key], unkAccess{f, a, construct, pos, w.HeldAt(a.In)})
 				continue
 			}
 			held := w.HeldAt(a.In)
@@ -131,6 +147,74 @@ func checkGuards(r *engine.Run, rule string, entries []*ssa.Function, owners map
 			}
 		}
 	}
+	// inferred guards of fields that are not in the table: all accesses atomic;
+	// or never written after construction; or one lock held at every access (in
+	// write mode at the writes). Anything else is a field without a discipline.
+	var ukeys []string
+	for k := range unknown {
+		ukeys = append(ukeys, k)
+	}
+	sort.Strings(ukeys)
+	for _, key := range ukeys {
+		accs := unknown[key]
+		allAtomic, anyWrite := true, false
+		common := map[string]int{} // lock -> weakest sufficient mode seen so far (0 = not common)
+		first := true
+		for _, u := range accs {
+			if !u.a.Atomic {
+				allAtomic = false
+			}
+			if u.a.Write {
+				anyWrite = true
+			}
+			need := engine.ModeR
+			if u.a.Write {
+				need = engine.ModeW
+			}
+			ok := map[string]int{}
+			for l, m := range u.held {
+				if m >= need {
+					ok[l] = 1
+				}
+			}
+			if first {
+				common = ok
+				first = false
+			} else {
+				for l := range common {
+					if ok[l] == 0 {
+						delete(common, l)
+					}
+				}
+			}
+		}
+		inferred := ""
+		switch {
+		case allAtomic:
+			inferred = "every access goes through sync/atomic"
+		case !anyWrite:
+			inferred = "never written after construction"
+		case len(common) > 0:
+			var ls []string
+			for l := range common {
+				ls = append(ls, l)
+			}
+			sort.Strings(ls)
+			inferred = "every access holds " + ls[0] + " (write mode at the writes)"
+		}
+		for _, u := range accs {
+			if inferred != "" {
+				note(u.construct, u.pos, true, "")
+				continue
+			}
+			mode := "read"
+			if u.a.Write {
+				mode = "write"
+			}
+			note(u.construct, u.pos, false, fmt.Sprintf("field %s is not in the guard table and its accesses follow no single discipline (not all atomic, written after construction, no lock held at every access in the needed mode): %s holding %s", key, mode, u.held.String()))
+		}
+		inferredGuards[key] = inferred
+	}
 	for _, c := range order {
 		a := per[c]
 		if len(a.bad) == 0 {
@@ -139,6 +223,18 @@ func checkGuards(r *engine.Run, rule string, entries []*ssa.Function, owners map
 			r.Fail(rule, c, a.pos, a.bad[0])
 		}
 	}
+	for _, pt := range pendingTable {
+		if pt[0] != rule {
+			continue
+		}
+		if g, seen := inferredGuards[pt[1]]; seen && g != "" {
+			r.OK(rule, "table|"+pt[1], "-", "field not in the guard table; inferred discipline: "+g)
+		} else if !seen {
+			r.OK(rule, "table|"+pt[1], "-", "field not in the guard table and never accessed from the analysed entry points")
+		}
+		// seen with no discipline: already reported per access
+	}
+	pendingTable = nil
 	return w
 }
 
@@ -174,7 +270,7 @@ func tableComplete(r *engine.Run, rule, rel string, owners map[string]bool, tabl
 		}
 		for _, f := range fs {
 			if _, ok := table[f]; !ok {
-				r.Undec(rule, "table|"+f, "-", "struct field without a guard-table entry: shared state was added and its protection has not been confirmed")
+				pendingTable = append(pendingTable, [2]string{rule, f})
 			}
 		}
 	}
